@@ -56,10 +56,18 @@ impl Prop for C09P {
         for (c, r) in super::hugezst::shapes() {
             v.push(format!("hugezst {}x{}", c, r));
         }
+        for (c, r) in super::hugezst::mid_shapes(tier) {
+            v.push(format!("midsize {}x{}", c, r));
+        }
         v
     }
     fn run_unit(&self, unit: &str, ctx: &mut Ctx) {
         let p: Vec<&str> = unit.split(' ').collect();
+        if p[0] == "midsize" {
+            let (c, r) = super::hugezst::parse_shape(p[1]);
+            run_mid(c, r, ctx);
+            return;
+        }
         if p[0] == "hugezst" {
             let (c, r) = super::hugezst::parse_shape(p[1]);
             run_huge_zst(c, r, ctx);
@@ -85,6 +93,7 @@ impl Prop for C09P {
          every proper prefix is additionally (i) closed with count, last, fold, rfold, for_each, rev-then-forward and (ii) followed by indexing [i] of the REMAINING sequence for every i in 0..=remaining+1 plus wrap-provoking huge i (in range => address of the i-th remaining cell, out of range => panic; IndexMut writes through for col_mut). \
          Results compared by ADDRESS with the ideal VecDeque; col_mut items are written through and the array must show exactly those writes; col(c)/col_mut(c) with c >= num_cols must panic. \
          Arrays of () with close to usize::MAX cells and their windows: col(x) / col_mut(x) for the first, middle and last column must report exact len()/size_hint() and follow the ideal sequence by count for every sequence of up to three calls of next / next_back / nth(0..=2) / nth_back(0..=2), and - when at most four cells are left - jumps by huge n (including n below the slice length whose product with the stride overflows), count and last. \
+         Arrays of ordinary cells whose dimensions cross 256 (thorough: 65536) and strided windows of them: first and last column, the same short sequences with jumps around those sizes, every yielded cell compared by ADDRESS. \
          states = distinct (subject, column, front, back) cursor positions; transitions = iterator calls; traces_validated_against_impl = sequences executed."
             .into()
     }
@@ -318,5 +327,64 @@ fn judge_index(cs: &mut Case, what: &str, i: usize, got: Result<usize, String>, 
         (Some(_), Err(m)) => cs.fail("col-index:panics-in-range", format!("{} with i = {} (remaining {}) panicked: {}", what, i, rest.len(), m)),
         (None, Ok(a)) => cs.fail("col-index:no-panic-out-of-range", format!("{} with i = {} but only {} cells remain: returned address {:#x} instead of panicking", what, i, rest.len(), a)),
         (None, Err(_)) => {}
+    }
+}
+
+/// col(x) / col_mut(x) of arrays whose dimensions cross 256 / 65536 and of strided windows of them.
+fn run_mid(c: usize, r: usize, ctx: &mut Ctx) {
+    use super::hugezst::{enc, mid_sequences, run_indexed};
+    let mut wins: Vec<((usize, usize), (usize, usize))> = vec![((0, 0), (c, r))];
+    if c > 2 {
+        wins.push(((1, 0), (c - 1, r)));
+    }
+    if r > 2 {
+        wins.push(((0, 1), (c, r - 1)));
+    }
+    for (s, e) in wins {
+        let (wc, wr) = (e.0 - s.0, e.1 - s.1);
+        let mut cols = vec![0, wc - 1];
+        cols.dedup();
+        for x in cols {
+            for seq in mid_sequences(wr, &[c, wc]) {
+                for kind in 0..4u8 {
+                    if kind < 2 && (s, e) != ((0, 0), (c, r)) {
+                        continue;
+                    }
+                    let name = ["TooDee::col", "TooDee::col_mut", "view(..).col", "view_mut(..).col_mut"][kind as usize];
+                    ctx.case(
+                        || format!("TooDee<u32> {}x{} window {:?}-{:?} {}({}): {}", c, r, s, e, name, x, enc(&seq)),
+                        |cs| {
+                            cs.nontrivial((c, r, s, e, x, kind, &seq));
+                            cs.outcome("mid-size");
+                            cs.transitions = seq.len() as u64;
+                            cs.traces = 1;
+                            let mut t = new_root(c, r);
+                            let base = t.data().as_ptr() as usize;
+                            let what = format!("{}({}) of the {}x{} window", name, x, wc, wr);
+                            let ok = |addr: usize, idx: usize| {
+                                let exp = base + ((s.1 + idx) * c + s.0 + x) * 4;
+                                if addr == exp {
+                                    None
+                                } else {
+                                    Some(format!("cell #{} of the column expected at {:#x}, got {:#x}", idx, exp, addr))
+                                }
+                            };
+                            match kind {
+                                0 => run_indexed(t.col(x), wr, &seq, |e, i| ok(*e as *const u32 as usize, i), true, &what, cs),
+                                1 => run_indexed(t.col_mut(x), wr, &seq, |e, i| ok(&**e as *const u32 as usize, i), true, &what, cs),
+                                2 => {
+                                    let v = t.view(s, e);
+                                    run_indexed(v.col(x), wr, &seq, |e, i| ok(*e as *const u32 as usize, i), true, &what, cs)
+                                }
+                                _ => {
+                                    let mut v = t.view_mut(s, e);
+                                    run_indexed(v.col_mut(x), wr, &seq, |e, i| ok(&**e as *const u32 as usize, i), true, &what, cs)
+                                }
+                            }
+                        },
+                    );
+                }
+            }
+        }
     }
 }
